@@ -371,4 +371,5 @@ def run(facts, rep, ctx):
     """rules added after the fifth seeding round (rules/round6.py)"""
     _run_before_round6(facts, rep, ctx)
     from . import round6
+    round6.cf2(facts, rep, ['data_structures::qgram_index::', 'alignment::sparse::'], 60)
     round6.sb12(facts, rep)
